@@ -133,6 +133,7 @@ type nxHost struct {
 	crashAt int
 	hooks   []string
 	// monitors
+	stoppedAt   int
 	maxTermSent uint64
 	lastUpdIdx  uint64
 	seenUpdates map[uint64]string // index -> cmd of user updates in this incarnation
@@ -151,19 +152,21 @@ func (h *nxHost) hook(name string) {
 // ---------------------------------------------------------------- client operations
 
 type nxOp struct {
-	id      int
-	kind    byte // 'w' write, 'r' read
-	at      uint64
-	val     uint64
-	rs      *RequestState
-	incar   int
-	call    int // event counter at invocation
-	ret     int // event counter at response (0 = open)
-	status  string
-	out     uint64 // value read / sm result
-	index   uint64
-	readyAt int // read: ReadIndex completed, waiting for the Lookup event
-	key     uint64
+	id        int
+	kind      byte // 'w' write, 'r' read
+	at        uint64
+	val       uint64
+	rs        *RequestState
+	incar     int
+	call      int // event counter at invocation
+	ret       int // event counter at response (0 = open)
+	status    string
+	out       uint64 // value read / sm result
+	index     uint64
+	readyAt   int // read: ReadIndex completed, waiting for the Lookup event
+	key       uint64
+	deadline  uint64 // logical tick of the request deadline
+	committed int
 }
 
 // ---------------------------------------------------------------- cluster
@@ -179,8 +182,8 @@ type nxCfg struct {
 	Prefix       []string
 	Script       []string
 	// budgets for deviations
-	Timeouts, Ticks, Crashes, Drops, Dups, Reorders, Writes, Reads, LazyApplies, Heartbeats, Transfers int
-	Horizon                                                                                            int
+	Timeouts, Ticks, Crashes, Drops, Dups, Reorders, Writes, Reads, LazyApplies, Heartbeats, Transfers, Stops int
+	Horizon                                                                                                   int
 }
 
 type nxMsg struct {
@@ -200,7 +203,7 @@ type nxCluster struct {
 	devs        int
 	spos        int
 	lazy        map[uint64]bool // hosts whose apply worker is being held back (deviation)
-	used        struct{ timeouts, ticks, crashes, drops, dups, reorders, writes, reads, lazy, heartbeats, transfers int }
+	used        struct{ timeouts, ticks, crashes, drops, dups, reorders, writes, reads, lazy, heartbeats, transfers, stops int }
 	recordHooks bool
 	pool        *sync.Pool
 	// monitors
@@ -507,6 +510,9 @@ const (
 	nxHoldApply
 	nxReleaseApply
 	nxTransfer
+	nxStop
+	nxWriteShort
+	nxReadShort
 )
 
 func nxev(kind int, a, b uint32) uint32 { return uint32(kind)<<24 | a<<12 | b }
@@ -518,7 +524,8 @@ func (c *nxCluster) describe(e uint32) string {
 	k, a, b := int(e>>24), (e>>12)&0xfff, e&0xfff
 	names := map[int]string{nxDeliver: "Deliver", nxDrop: "Drop", nxDup: "DupDeliver", nxTimeout: "ElectionTimeout", nxHeartbeat: "HeartbeatTimeout",
 		nxTick: "Tick", nxWrite: "Write@", nxRead: "ReadIndex@", nxLookup: "Lookup(op)", nxCrash: "CrashRestart", nxCrashIn: "CrashInDelivery",
-		nxHoldApply: "HoldApplyWorker", nxReleaseApply: "ReleaseApplyWorker", nxTransfer: "LeaderTransfer"}
+		nxHoldApply: "HoldApplyWorker", nxReleaseApply: "ReleaseApplyWorker", nxTransfer: "LeaderTransfer", nxStop: "StopShard",
+		nxWriteShort: "WriteShortTimeout@", nxReadShort: "ReadIndexShortTimeout@"}
 	return fmt.Sprintf("%s(%d,%d)", names[k], a, b)
 }
 
@@ -546,6 +553,15 @@ func (c *nxCluster) scriptEvent(it string) uint32 {
 	case 'L':
 		fmt.Sscanf(it[1:], "%d>%d", &a, &b)
 		return nxev(nxTransfer, a, b)
+	case 'S':
+		fmt.Sscanf(it[1:], "%d", &a)
+		return nxev(nxStop, a, 0)
+	case 'w':
+		fmt.Sscanf(it[1:], "%d", &a)
+		return nxev(nxWriteShort, a, 0)
+	case 'r':
+		fmt.Sscanf(it[1:], "%d", &a)
+		return nxev(nxReadShort, a, 0)
 	}
 	panic("unknown script item " + it)
 }
@@ -569,7 +585,7 @@ func (c *nxCluster) runPrefix() {
 		}
 	}
 	c.cfg = saved
-	c.used = struct{ timeouts, ticks, crashes, drops, dups, reorders, writes, reads, lazy, heartbeats, transfers int }{}
+	c.used = struct{ timeouts, ticks, crashes, drops, dups, reorders, writes, reads, lazy, heartbeats, transfers, stops int }{}
 	c.devs, c.spos = 0, 0
 }
 
@@ -664,6 +680,9 @@ func (c *nxCluster) Enabled() []uint32 {
 		if c.lazy[h.id] {
 			add(nxev(nxReleaseApply, id, 0))
 		}
+		if c.used.stops < cfg.Stops {
+			add(nxev(nxStop, id, 0))
+		}
 		if c.used.transfers < cfg.Transfers && vp.IsLeader() {
 			for _, t := range c.hosts {
 				if t.id != h.id {
@@ -727,6 +746,9 @@ func (c *nxCluster) Step(e uint32) (msg string) {
 		c.restart(c.byID[uint64(a)])
 	case nxTimeout, nxHeartbeat, nxTick:
 		h := c.byID[uint64(a)]
+		if !h.up {
+			break
+		}
 		switch k {
 		case nxTimeout:
 			c.used.timeouts++
@@ -747,16 +769,33 @@ func (c *nxCluster) Step(e uint32) (msg string) {
 			h.node.mq.Add(pb.Message{Type: pb.LocalTick, To: h.id, From: h.id, Hint: tick})
 			c.stepWorker(h)
 		})
-	case nxWrite:
+	case nxStop:
 		h := c.byID[uint64(a)]
+		c.used.stops++
+		if h.up {
+			// NodeHost.stopNode: close the node (terminates every pending request)
+			h.node.close()
+			h.up = false
+			h.stoppedAt = c.clock
+		}
+	case nxWrite, nxWriteShort:
+		h := c.byID[uint64(a)]
+		if !h.up {
+			break
+		}
 		c.used.writes++
 		c.nextVal++
-		op := &nxOp{id: len(c.ops), kind: 'w', at: h.id, val: c.nextVal, call: c.clock, incar: h.incar}
+		timeout := uint64(1000)
+		if k == nxWriteShort {
+			timeout = 3
+		}
+		op := &nxOp{id: len(c.ops), kind: 'w', at: h.id, val: c.nextVal, call: c.clock, incar: h.incar,
+			deadline: h.node.pendingReadIndexes.getTick() + timeout}
 		c.ops = append(c.ops, op)
 		cmd := make([]byte, 8)
 		binary.BigEndian.PutUint64(cmd, op.val)
 		session := &client.Session{ShardID: nxShard, ClientID: 7000 + uint64(op.id), SeriesID: client.NoOPSeriesID}
-		rs, err := h.node.propose(session, cmd, 1000)
+		rs, err := h.node.propose(session, cmd, timeout)
 		if err != nil {
 			op.status, op.ret = "refused:"+err.Error(), c.clock
 			break
@@ -764,12 +803,20 @@ func (c *nxCluster) Step(e uint32) (msg string) {
 		op.rs = rs
 		op.key = rs.key
 		c.guarded(h, 0, func() { c.stepWorker(h) })
-	case nxRead:
+	case nxRead, nxReadShort:
 		h := c.byID[uint64(a)]
+		if !h.up {
+			break
+		}
 		c.used.reads++
-		op := &nxOp{id: len(c.ops), kind: 'r', at: h.id, call: c.clock, incar: h.incar}
+		timeout := uint64(1000)
+		if k == nxReadShort {
+			timeout = 3
+		}
+		op := &nxOp{id: len(c.ops), kind: 'r', at: h.id, call: c.clock, incar: h.incar,
+			deadline: h.node.pendingReadIndexes.getTick() + timeout}
 		c.ops = append(c.ops, op)
-		rs, err := h.node.read(1000)
+		rs, err := h.node.read(timeout)
 		if err != nil {
 			op.status, op.ret = "refused:"+err.Error(), c.clock
 			break
@@ -797,6 +844,9 @@ func (c *nxCluster) Step(e uint32) (msg string) {
 		c.settle(c.byID[uint64(a)])
 	case nxTransfer:
 		h := c.byID[uint64(a)]
+		if !h.up {
+			break
+		}
 		c.used.transfers++
 		if err := h.node.requestLeaderTransfer(uint64(b)); err == nil {
 			c.guarded(h, 0, func() { c.stepWorker(h) })
@@ -811,8 +861,20 @@ func (c *nxCluster) afterStep() string {
 		if op.rs == nil || op.ret != 0 || op.readyAt != 0 {
 			continue
 		}
+		// the raw channels are read: ResultC() of a notify-commit request is fed
+		// by a bridging goroutine, which the explorer does not control
+		if op.rs.committedC != nil {
+			select {
+			case r := <-op.rs.committedC:
+				op.committed++
+				if op.committed > 1 || !r.Committed() {
+					c.fail("C12: op%d received %d commit notifications (%v)", op.id, op.committed, r)
+				}
+			default:
+			}
+		}
 		select {
-		case r := <-op.rs.ResultC():
+		case r := <-op.rs.CompletedC:
 			c.onResult(op, r)
 		default:
 		}
